@@ -148,6 +148,18 @@ pub fn json_close(a: &Value, b: &Value) -> bool {
   agg_cmp(a, b, false) == AggEq::Same
 }
 
+/// the response with the hit list of every `top_hits` blanked (its `total` stays)
+pub fn without_top_hits_lists(v: &Value) -> Value {
+  match v {
+    Value::Object(m) => {
+      let th = is_top_hits(m);
+      Value::Object(m.iter().map(|(k, x)| (k.clone(), if th && k == "hits" { Value::Null } else { without_top_hits_lists(x) })).collect())
+    }
+    Value::Array(a) => Value::Array(a.iter().map(without_top_hits_lists).collect()),
+    _ => v.clone(),
+  }
+}
+
 /// does some `top_hits` of the aggregation tree order by `_score` (explicitly, or by its default sort)?
 pub fn top_hits_orders_by_score(aggs: &Value) -> bool {
   match aggs {
@@ -399,8 +411,9 @@ impl Property for C13 {
               out.excluded_known += 1;
               break;
             }
-          } else if has_top_hits && v.explain && ctx.is_known("C20", crate::props::c20::SIG_EXPLAIN_SCORING) {
-            // the listed C20 finding (explain forces scoring) seen through top_hits scores
+          } else if has_top_hits && v.explain && ctx.is_known("C20", crate::props::c20::SIG_EXPLAIN_SCORING) && agg_cmp(&without_top_hits_lists(&aggs), &without_top_hits_lists(&base_aggs), false) == AggEq::Same {
+            // the listed C20 finding (explain forces scoring) seen through top_hits scores: only the
+            // hit lists of top_hits differ, every count, key and metric is equal
             out.excluded_known += 1;
             out.class("difference-explained-by-C20-known-finding");
             break;
